@@ -145,9 +145,42 @@ def world():
     setattr(sub, "é", SerA)
     setattr(sub, "a b", SerA)
     setattr(sub, "", SerA)          # attribute with the empty name: tag "c19w.sub."
+    # modules that EXIST but fail while importing a missing dependency of their own (ModuleNotFoundError whose .name is not the
+    # requested module): served by a meta-path finder, so that every import attempt executes them again and fails again
+    import importlib.abc
+    import importlib.util
+    sources = {"c19w.broken": "import c19_missing_dependency_a\nclass X: pass\n",
+               "c19broken": "import c19_missing_dependency_b\n",
+               "c19w.sub.brokensub": "from c19_missing_pkg.inner import thing\n"}
+
+    class BrokenFinder(importlib.abc.MetaPathFinder, importlib.abc.Loader):
+        def find_spec(self, name, path=None, target=None):
+            if name in sources:
+                return importlib.util.spec_from_loader(name, self)
+            return None
+
+        def create_module(self, spec):
+            return None
+
+        def exec_module(self, module):
+            exec(sources[module.__name__], module.__dict__)
+
+    sub.__path__ = []
+    sys.meta_path.append(BrokenFinder())
+    # registration history for the deserialiser side: a first from_json of the tag is refused, then the type is registered
+    LateReg = type("LateReg", (), {"__module__": "c19w.sub"})
+    setattr(sub, "LateReg", LateReg)
+    try:
+        from krrood.adapters.json_serializer import from_json as _fj
+        _fj({"__json_type__": "c19w.sub.LateReg"})
+        late_first = "returned"
+    except Exception as e:  # noqa
+        late_first = type(e).__name__
+    JSONSerializableTypeRegistry().register(LateReg, reg_ser, reg_deser)
+    registered[id(LateReg)] = reg_deser
     pk.SerC = SerC
     pk.Plain = Plain
-    _WORLD = {"reg_deser": reg_deser, "registered": registered, "keep": [TaggedUUID, RegSubSub]}
+    _WORLD = {"reg_deser": reg_deser, "registered": registered, "keep": [TaggedUUID, RegSubSub], "late_first": late_first}
     return _WORLD
 
 
@@ -397,6 +430,9 @@ def tag_table(tier: str, seed: int) -> List[dict]:
              "krrood.adapters.json_serializer.Self", "krrood.adapters.nosuch.X", "krrood.nosuch", "krrood.utils.get_full_class_name",
              "krrood.singleton.SingletonMeta", "nosuchmodule_c19.X", "nosuchmodule_c19.sub.X", "os\x00.path", "os.\x00", "OS.path", "Json.dumps",
              " os.path", "os .path", "os.path ", "os.path\n", "\tos.path",
+             # modules that exist but whose own import fails on a missing dependency; a type registered after a refused attempt
+             "c19w.broken.X", "c19w.broken", "c19w.broken.sub.X", "c19broken.X", "c19broken.a.B", "c19w.sub.brokensub.X", "c19w.sub.brokensub",
+             "multiprocessing.popen_spawn_win32.Popen", "multiprocessing.popen_spawn_win32", "c19w.sub.LateReg",
              # nested classes, and attribute paths through classes / non-classes
              "c19w.sub.Outer.Inner", "c19w.sub.Outer.Mid.Deep", "c19w.sub.Outer.Mid", "c19w.sub.Outer", "c19w.sub.Outer.nosuch",
              "c19w.sub.Outer.nosuch.Inner", "c19w.sub.Outer.Inner.x", "c19w.sub.Outer.attr", "c19w.sub.Outer.attr.x", "c19w.sub.Outer.method",
@@ -502,7 +538,7 @@ def run(tier: str, seed: int, replay=None) -> int:
                   "exceptions raised by executing a broken third-party module are outside the model",
                   "module-level __getattr__ hooks and metaclass __subclasscheck__ overrides that raise are outside the model",
                   "what target_cls._from_json / a registered deserialiser does with a resolvable tag is user code (C18)"]
-    rep.rule = ("exhaustive tag table: every JSON type incl. falsy values of each, '', dots at every position of 5 names (one of a nested class), nested-class tags and attribute paths through classes / non-classes (X.__base__, X.method.y, f.<locals>.L), names of modules / "
+    rep.rule = ("exhaustive tag table: every JSON type incl. falsy values of each, '', dots at every position of 5 names (one of a nested class), modules that exist but fail on a missing dependency of their own, a type registered after a first refused from_json, nested-class tags and attribute paths through classes / non-classes (X.__base__, X.method.y, f.<locals>.L), names of modules / "
                 "functions / TypeVars / constants / instances / plain, registered, metaclass and abstract classes in the standard library, krrood and "
                 "two synthetic modules; plus seeded random splices (150 quick / 3000 thorough); thorough adds every attribute name of "
                 f"{len(SAFE_MODULES)} modules; distinct = distinct tag; every case is non-trivial (has its own expected outcome)")
